@@ -254,6 +254,10 @@ pub fn is_valid_solution(
     is_valid_solution_recursive(p, input, nonce, &indices)
 }
 
+#[cfg(zcash_librustzcash_verif)]
+#[path = "verif_hooks.rs"]
+pub mod verif_hooks;
+
 #[cfg(test)]
 mod tests {
     use super::{is_valid_solution, is_valid_solution_iterative, is_valid_solution_recursive};
